@@ -78,6 +78,39 @@ func (c *Ctx) originOf(fn *ssa.Function, v ssa.Value, zeroField func(ssa.Value) 
 			if p, ok := ap.Call.Args[1].(*ssa.Parameter); ok && zeroField(ap.Call.Args[0]) {
 				return fmt.Sprintf("copy:p%d", paramIndex(fn, p))
 			}
+			// append([]byte(nil), p...) / append(make([]byte, 0, n), p...)
+			if p, ok := ap.Call.Args[1].(*ssa.Parameter); ok {
+				if isNilConst(ap.Call.Args[0]) {
+					return fmt.Sprintf("copy:p%d", paramIndex(fn, p))
+				}
+				if mk, ok := ap.Call.Args[0].(*ssa.MakeSlice); ok {
+					if k, ok := mk.Len.(*ssa.Const); ok {
+						if n, _ := constInt64(k.Value); n == 0 {
+							return fmt.Sprintf("copy:p%d", paramIndex(fn, p))
+						}
+					}
+				}
+			}
+		}
+	case *ssa.MakeSlice:
+		// value := make([]byte, len(p)); copy(value, p): the same private copy an append would make
+		if mk := x; isByteSlice(mk.Type()) {
+			f := c.NewFA(fn)
+			var src *ssa.Parameter
+			n := 0
+			for _, ref := range *mk.Referrers() {
+				call, ok := ref.(*ssa.Call)
+				if !ok {
+					continue
+				}
+				if bi, ok := call.Call.Value.(*ssa.Builtin); ok && bi.Name() == "copy" && call.Call.Args[0] == ssa.Value(mk) {
+					n++
+					src, _ = call.Call.Args[1].(*ssa.Parameter)
+				}
+			}
+			if n == 1 && src != nil && f.LFOf(mk.Len).key() == f.SliceLen(src).key() {
+				return fmt.Sprintf("copy:p%d", paramIndex(fn, src))
+			}
 		}
 	}
 	return "?" + v.Name()
@@ -1197,6 +1230,9 @@ func (c *Ctx) builderTotality(r *Report, prefix string) {
 
 // truncationRules: C19 rule 5.
 func (c *Ctx) truncationRules(r *Report, prefix string) {
+	// what the builders append is observed through its encoding: an oversize argument gives an error there too,
+	// not a wrapped length field
+	c.guardedNarrowingRule(r, prefix+"encode.guarded-narrowing")
 	rule := prefix + "no-truncation"
 	r.Rule(rule, "every narrowing integer conversion in the builders (message/build.go) is provably lossless from dominating guards; the guard's failing edge returns an error", 3)
 	pkg := c.Pkg("message")
